@@ -49,5 +49,9 @@ func VFailures() []string {
 }
 
 // VAssertLog / VObsLog: what this package's harness code evaluated natively.
-func VAssertLog() []string { vMu.Lock(); defer vMu.Unlock(); return append([]string(nil), vAssertLog...) }
-func VObsLog() []string    { vMu.Lock(); defer vMu.Unlock(); return append([]string(nil), vObsLog...) }
+func VAssertLog() []string {
+	vMu.Lock()
+	defer vMu.Unlock()
+	return append([]string(nil), vAssertLog...)
+}
+func VObsLog() []string { vMu.Lock(); defer vMu.Unlock(); return append([]string(nil), vObsLog...) }
